@@ -52,6 +52,30 @@ func (e *Engine) globalDefault(o *Object) (Value, bool) {
 			return &IfaceV{typ: e.errorType(), val: s}, true
 		}
 	}
+	if !strings.HasPrefix(path, repoModule) && path != "" {
+		// a library global whose initialiser the engine did not run: only known tables are provided,
+		// anything else must not silently read as zero
+		switch g.String() {
+		case "strings.asciiSpace", "bytes.asciiSpace":
+			v := make([]*Term, 256)
+			for i := range v {
+				v[i] = e.tm.BV(0, 8)
+			}
+			for _, c := range []byte{'\t', '\n', '\v', '\f', '\r', ' '} {
+				v[c] = e.tm.BV(1, 8)
+			}
+			return ArrExpr(&ArrVec{v}), true
+		}
+		_, isBasic := et.Underlying().(*types.Basic)
+		if stt, isStruct := et.Underlying().(*types.Struct); isStruct && stt.NumFields() == 0 {
+			isBasic = true // empty struct (encoding/binary.BigEndian): zero is the value
+		}
+		if !isBasic {
+			if !e.lenient {
+				panic(unsupported("read of library global without initialiser model: " + g.String()))
+			}
+		}
+	}
 	return e.valueToContent(e.zero(et)), true
 }
 
